@@ -67,6 +67,11 @@ func GenCaseOpt(r *core.Rng, id int, getter bool) *conv.Case {
 		// names that collide the way generate/names.go documents
 		sfx = gen.SuffixNames(r, s)
 	}
+	hzScalar, hzScalarOp := "", (*gen.Def)(nil)
+	if variant == 0 || variant == 1 {
+		// a custom scalar as variable (list depths 0-2) and as result, bound one-sidedly below
+		hzScalar, hzScalarOp = gen.ScalarHazard(r, s)
+	}
 	oo := gen.DefaultOpOpts()
 	oo.MaxOps = 2
 	d := gen.RandomDoc(r, s, oo)
@@ -90,6 +95,28 @@ func GenCaseOpt(r *core.Rng, id int, getter bool) *conv.Case {
 		gen.AdversarialNames = pool
 		gen.Decorate(r, s, d, 0.3, 0.03)
 		gen.AdversarialNames = nil
+		// `bind:` to a Go type that cannot hold the field's JSON is the user's error, not a
+		// property of the generated code: drop those options here (the safe decoration binds
+		// compatible types)
+		var strip func(sels []*gen.Sel)
+		strip = func(sels []*gen.Sel) {
+			for _, x := range sels {
+				var kept []string
+				for _, c := range x.Comment {
+					if !strings.Contains(c, "bind:") {
+						kept = append(kept, c)
+					}
+				}
+				x.Comment = kept
+				strip(x.Sub)
+			}
+		}
+		for _, o := range d.Ops {
+			strip(o.Sel)
+		}
+		for _, f := range d.Frags {
+			strip(f.Sel)
+		}
 		cfg = gen.RandomCfg(r, s)
 	} else {
 		gen.DecorateSafe(r, s, d, []float64{0, 0.2, 0.3}[id%3])
@@ -101,6 +128,18 @@ func GenCaseOpt(r *core.Rng, id int, getter bool) *conv.Case {
 	}
 	if sfx != nil {
 		defs = append(defs, sfx)
+	}
+	if hzScalarOp != nil {
+		defs = append(defs, hzScalarOp)
+		cfg.Bindings[hzScalar] = "example.com/m.M5"
+		if cfg.Marshalers == nil {
+			cfg.Marshalers = map[string][2]string{}
+		}
+		if variant == 0 {
+			cfg.Marshalers[hzScalar] = [2]string{"example.com/m.Marshal5", ""} // input-only scalar
+		} else {
+			cfg.Marshalers[hzScalar] = [2]string{"", "example.com/m.Unmarshal5"}
+		}
 	}
 	if variant == 5 {
 		defs = append(defs, gen.TwoSpreadsOp(r, s, "X")...)
